@@ -320,7 +320,28 @@ func (s *Serializer) Serialize(blocks []*Block) string {
 	}
 	var sb strings.Builder
 	for _, l := range lines {
-		full := l.pre + l.text
+		pre := l.pre
+		if l.role != roleBlank && !strings.Contains(pre, "\t") {
+			// Tab in place of the spaces up to the next tab stop, anywhere in the
+			// structural prefix (container markers, their padding and indentation,
+			// the indentation of indented code): in contexts where spaces define
+			// block structure a tab behaves like spaces up to the next multiple of 4.
+			var cands []int
+			for c := 0; c < len(pre); c++ {
+				k := 4 - c%4
+				if c+k <= len(pre) && strings.Trim(pre[c:c+k], " ") == "" {
+					cands = append(cands, c)
+				}
+			}
+			if len(cands) > 0 {
+				if d := s.C.Dev(1 + len(cands)); d > 0 {
+					c := cands[d-1]
+					pre = pre[:c] + "\t" + pre[c+4-c%4:]
+					s.UsedTab = true
+				}
+			}
+		}
+		full := pre + l.text
 		if l.role == roleBlank {
 			full = strings.TrimRight(full, " ")
 		}
@@ -373,7 +394,7 @@ func (s *Serializer) blocks(bs []*Block, col int) []sline {
 				if l == "" {
 					out = append(out, sline{role: roleBlank})
 				} else {
-					out = append(out, sline{text: ind + l, role: roleVerbatim})
+					out = append(out, sline{text: l, pre: ind, role: roleVerbatim})
 				}
 			}
 		case BQuote:
@@ -604,10 +625,14 @@ func (s *Serializer) para(in []Inl) []sline {
 	var out []sline
 	for i, l := range strings.Split(text, "\n") {
 		role := roleParaCont
+		pre := ""
 		if i == 0 {
 			role = roleParaFirst
+		} else {
+			// Paragraph continuation lines may be indented; the indentation is stripped.
+			pre = strings.Repeat(" ", s.C.Dev(4))
 		}
-		out = append(out, sline{text: l, role: role})
+		out = append(out, sline{text: l, pre: pre, role: role})
 	}
 	return out
 }
